@@ -229,7 +229,7 @@ PROPS["C09"] = dict(
 PROPS["C12"] = dict(
     title='A resumable subscription sees each event of its type once across restarts',
     theorems="Properties/C12.v",
-    proof_files=["Store/ResubModel.v", "Store/ResubProofs.v", "Properties/C12.v"],
+    proof_files=["Store/ResubModel.v", "Store/ResubProofs.v", "Store/ResubLink.v", "Properties/C12.v"],
     suites=[dict(name="resubmem", mod="core", family="resubmem", corr="Corr.CorrResub", check="check12", shard=50),
             dict(name="resubsqlite", mod="core", family="resubsqlite", corr="Corr.CorrResub", check="check12", shard=50),
             dict(name="resubsqlitemem", mod="core", family="resubsqlitemem", corr="Corr.CorrResub", check="check12", shard=50),
